@@ -176,6 +176,18 @@ def check(run, model, tier):
     # the stop item is compared on the head of the queue the consumer pops from
     st_txt = norm(expand_locals(st.ast, re_.node))
     ok = '[0]' in st_txt and queues.consumer_end(model) == 'left'
+    if not ok and queues.consumer_end(model) == 'left':
+        # the inspected element may arrive through a local with several definitions (an inlined observer: `x = None` when empty, `x = self.queue[0]` otherwise): every
+        # definition that reaches the test is the head of the queue, or None on a branch the guards of the test exclude (the queue is known non-empty there)
+        from sa.hsmsites import reaching_defs as _rd
+        from sa.boolflow import must_atoms as _ma
+        rd_, valmap_ = _rd(gr, re_.params)
+        names_ = [x.id for x in ast.walk(st.ast) if isinstance(x, ast.Name) and x.id not in re_.params]
+        vals_ = [valmap_.get(d_) for nm_ in names_ for d_ in rd_[st].get(nm_, set())]
+        heads_ = [v_ for v_ in vals_ if isinstance(v_, ast.AST) and '[0]' in norm(v_)]
+        nones_ = [v_ for v_ in vals_ if isinstance(v_, ast.Constant) and v_.value is None]
+        nonempty_ = any(a_[0].startswith('len(') and ((a_[1] == 'GtE' and a_[2] == '1') or (a_[1] in ('Gt', 'NotEq') and a_[2] == '0')) for a_ in _ma(gr, st, re_.node, params=re_.params))
+        ok = bool(heads_) and len(heads_) + len(nones_) == len(vals_) and (not nones_ or nonempty_)
     run.inst('CONSUMER.exit', re_, 'the stop test looks at the element next_rtc would pop', ok, 'stop test inspects %s' % norm(st.ast), node=st.ast, obligation=True)
     # ---- SCOPE
     fx = effects(model)
@@ -214,4 +226,9 @@ def check(run, model, tier):
     run.rule('ORDER.timer-retest', 'the timer re-tests its run flag between its sleep and its post')
     from props.c11 import timer_retest
     timer_retest(run, gt, t, posts, rule='ORDER.timer-retest')
+    # a source can only be cancelled while its record is in the (bounded) tracking deque: the admission limit must be the deque's own bound
+    from props.c31 import admission_capacity, same_capacity
+    ac_ = admission_capacity(model)
+    if ac_ is not None:
+        same_capacity(run, model, *ac_)
     run.assume('Thread.join() returns when the target returns; posting the stop item wakes the consumer (token protocol: C04)')
